@@ -484,6 +484,78 @@ func runC08(w *mon.W) {
 		w.End()
 	}
 
+	// ---- window edges: an upper-case A/C/G/T sequence whose only irregularity - a lower-case stretch that ends, a
+	// single lower-case letter, a single N, Y or R - sits within three letters of a multiple of 4096, 8192, ...,
+	// 65536 (a counter that works window by window meets it in the codon that straddles two windows)
+	for _, W := range []int{4096, 8192, 16384, 32768, 65536} {
+		for k := 1; k*W < 100000 && k <= 3; k++ {
+			id := fmt.Sprintf("edge-%d-%d", W, k)
+			idx++
+			if !w.Want(id, idx) {
+				continue
+			}
+			r := w.Rand(id)
+			w.Begin(id, fmt.Sprintf("irregularities within 3 letters of %d in upper-case sequences", k*W))
+			for d := -3; d <= 3; d++ {
+				for kind := 0; kind < 4; kind++ {
+					L := k*W + W + 5 + r.Intn(7)
+					if L > 100000 {
+						L = 100000
+					}
+					pos := k*W + d
+					if pos >= L {
+						continue
+					}
+					b := []byte(randString(r, "ACGT", L))
+					what := ""
+					switch kind {
+					case 0:
+						from := pos - 1 - r.Intn(3000)
+						if r.Intn(2) == 0 || from < 0 {
+							from = 0
+						}
+						for j := from; j < pos; j++ {
+							b[j] += 32
+						}
+						what = fmt.Sprintf("lower case from %d up to %d", from, pos)
+					case 1:
+						b[pos] += 32
+						what = fmt.Sprintf("one lower-case letter at %d", pos)
+					case 2:
+						b[pos] = "NYRn"[r.Intn(4)]
+						what = fmt.Sprintf("one ambiguity code at %d", pos)
+					default:
+						for j := pos; j < L; j++ {
+							b[j] += 32
+						}
+						what = fmt.Sprintf("lower case from %d to the end", pos)
+					}
+					seq := string(b)
+					tid := tableIDs[r.Intn(len(tableIDs))]
+					t := deepTable(tid)
+					var t2 codon.Table
+					if p := mon.Try(func() { t2 = t.OptimizeTable(seq) }); p != "" {
+						w.Violation(id, fmt.Sprintf("OptimizeTable on %d letters (%s), table %d: %s", L, what, tid, p), map[string]any{"table": tid, "sequence": seq})
+						continue
+					}
+					w.Eval(true, mon.Hash64(fmt.Sprint(tid), seq))
+					w.Add("window_edge_cases", 1)
+					cnt := countCodons(seq)
+					bad := false
+					for l, cs := range snapshot(t2).AA {
+						for c, wt := range cs {
+							if wt != cnt[c] && !bad {
+								w.Violation(id, fmt.Sprintf("table %d re-weighted with %d upper-case letters with %s: codon %s (%s) has weight %d, it occurs %d times in frame", tid, L, what, c, l, wt, cnt[c]), map[string]any{"table": tid, "sequence": seq})
+								bad = true
+							}
+						}
+					}
+				}
+			}
+			w.End()
+		}
+	}
+
 	// ---- churn: many different sequences of one and the same length, each in a freshly allocated string that
 	// becomes garbage right after its call (a later string of that length is likely to be placed where an
 	// earlier one was): each result depends on the letters of that call's argument only
